@@ -22,10 +22,15 @@ means the check was silent on the first try and the machinery was strengthened (
 input class or monitor added) until it fired; no oracle was loosened.
 
 '''+tbl+'''
-Of the %d seeded changes, %d were caught by the machinery as it stood and %d only after a
-strengthening; each strengthening widened an input class for every later run (and two of them
-- blank fields, packages named differently from their directory - exposed further genuine
-defects of the pinned tree, repaired in 2169936 and c4f88ce).
+Of the %d seeded changes (four rounds, two changes per property and round; from round 2 on each
+sub-agent was told which triggers were already taken), %d were caught by the machinery as it stood and
+%d only after a strengthening; each strengthening widened an input class or added a monitor for every
+later run, and several exposed further genuine defects of the pinned tree along the way (blank fields,
+package names, dot imports, symbolic links, value getters, the acceptance defects found by C01's list
+of faulty inputs - see 10.3). Where a repair in /repo touched the lines of a seeded patch delivered
+against an older HEAD, the patch was rebased by hand and its demonstration re-confirmed (noted in the
+row). A change is listed under every check that reports it; "caught by" a neighbouring check only (for
+example a two-run history for C07 or C13 that C12 owns) is said so in the note.
 ''' % (len(rows), n_first, len(rows)-n_first)
 p='/verif/DESIGN.md'
 s=open(p).read()
